@@ -4,6 +4,12 @@ From RecordUpdate Require Import RecordUpdate.
 From LE Require Import Base Ev Consts World Mon Proto GenGuards SimBasics.
 Open Scope Z_scope.
 
+Lemma guards_late b te : guards b te = [] -> late_claim b te = [].
+Proof.
+  unfold guards. intros G. apply app_nil_l2 in G. destruct G as [_ G]. apply app_nil_l2 in G. destruct G as [_ G].
+  apply app_nil_l2 in G. destruct G as [_ G]. apply app_nil_l2 in G. destruct G as [G _]. exact G.
+Qed.
+
 Lemma guards_split b te : guards b te = [] -> guards0 b te = [] /\ overdue_ticks b (fst te) = [] /\ (fst te <? b_now b) = false.
 Proof.
   unfold guards. intros G. apply app_nil_l2 in G. destruct G as [G1 G]. apply app_nil_l2 in G. destruct G as [G2 G].
